@@ -3,6 +3,9 @@
 import json, os
 HOOK_COMMITS = ["1d323e3"]
 CHECKS = {
+ "C16": dict(cat="exploration", tech="runtime monitoring: bounded-exhaustive hint grid against a small model of the documented matching rule + relational monitor between real runs with type checks on and off + differential monitor against the reference model",
+   text="The complete grid of 14 hint positions x 22 hint names x {plain, ?} x 22 values (about 27 000 cells, each with type checks on and off) is executed by the real implementation: assert positions must raise exactly on mismatch (never with checks off), match / catch positions must fall through instead and keep selecting with checks off. Generated programs of four kgen profiles carrying hints (a few wrong) are compared with the reference model with checks on and, when they passed, with their own run with checks off.",
+   note="Matching model written from the guide; guide-silent cells (Generator vs Callable, Object for untyped metamaps, Iterable for metamaps, @type inherited through @base) are pinned. Host objects are covered by C17, not here.", ref="4 C16"),
  "C12": dict(cat="fault_enumeration", tech="runtime monitoring: planted-fault enumeration with a printer-known line map, oracle over the real error trace (debug info), rendered excerpts and debug prefixes",
    text="About 230 000 programs per quick run: runtime faults of 10 kinds planted behind random multi-line filler at call depth 0-4 through 18 call-site forms - the real trace mapped through the chunk's debug info must list the fault line and the call-site lines innermost first, and every excerpt of the rendered message must quote the source line it names; 11 kinds of bad token lines planted at statement boundaries - compile error with a span inside the text, starting on the planted line, excerpt quoting it; debug statements (single / multi-line, nested in functions) - prefix equals the first line of the expression.",
    note="Line numbers come from the harness' own bookkeeping; consecutive frames that report the same line are merged (native adaptors add frames). Multi-line failing expressions are judged by line range.", ref="4 C12"),
